@@ -28,6 +28,7 @@ THEOREMS = [
     "c02_read_quoted_symbol",
     "c02_read_operator",
     "c02_symbol_sid",
+    "c02_symbol_sid_out_of_range",
     "c02_symbol_text",
     "c02_read_blob",
     "c02_blob_spec",
